@@ -302,7 +302,18 @@ class MessageManager(interfaces.TokenInterface, interfaces.MessageManager):
         while not any(r == remote for r, mid in self._active_exchanges.keys()):
             if self._backlogs[remote] != []:
                 next_message, messageerror_monitor = self._backlogs[remote].pop(0)
-                self._send_initially(next_message, messageerror_monitor)
+                try:
+                    self._send_initially(next_message, messageerror_monitor)
+                except Exception as e:
+                    # Whoever queued the message is long gone from the call
+                    # stack; all that can be done is to report the message
+                    # as failed and to carry on with the others.
+                    self.log.error(
+                        "Held-back message could not be sent: %r", e, exc_info=e
+                    )
+                    messageerror_monitor()
+                    if remote not in self._backlogs:
+                        break
             else:
                 del self._backlogs[remote]
                 break
@@ -533,7 +544,20 @@ class MessageManager(interfaces.TokenInterface, interfaces.MessageManager):
 
         self._store_response_for_duplicates(message)
 
-        self._send_via_transport(message)
+        try:
+            self._send_via_transport(message)
+        except Exception:
+            # The message did not even make it to the transport (typically
+            # because it can not be serialized). Nothing will ever
+            # acknowledge it, so it must not linger as an open exchange that
+            # blocks later messages to that remote.
+            if message.mtype is CON:
+                _, next_retransmission = self._active_exchanges.pop(
+                    (message.remote, message.mid)
+                )
+                next_retransmission.cancel()
+                self._continue_backlog(message.remote)
+            raise
 
     def _send_via_transport(self, message):
         """Put the message on the wire"""
